@@ -996,6 +996,7 @@ int main(int argc, char **argv) {
         if (cfgs[i][4] && !v_thorough()) continue;
         model.max_depth = cfgs[i][3] == 0 ? ESX_MAX_DEPTH : (depth ? depth : (v_thorough() ? 6 : 5));
         esx_run(&model);
+        ESX_CYCLES(&model);
     }
     if (v_counter_value("histories_cut_capacity_beyond_reference_arrays")) v_exhaustive = 0;
     v_finish();
